@@ -1032,6 +1032,13 @@ func extractRouting(repo, root string) error {
 	b.WriteString("/-- transport.go update, what is written to the cached state: a failed refresh keeps a known view (early return when\nmetadata is cached) and otherwise stores the error; a successful refresh installs the new metadata and layout and CLEARS the error -/\n")
 	fmt.Fprintf(&b, "def updateErrorKeepsKnown : Bool := %v\ndef updateErrorStoresErr : Bool := %v\ndef updateSuccessSetsMetadata : Bool := %v\ndef updateSuccessSetsLayout : Bool := %v\ndef updateSuccessClearsErr : Bool := %v\n\n",
 		keeps, stores, has("metadata=new"), has("layout=new"), has("err=nil"))
+	form, err := brokerDialAddress(repo)
+	if err != nil {
+		return err
+	}
+	b.WriteString("/-- transport.go newBrokerConnGroup: how the dial address of a broker's connection group is built from the Host / Port\nthe metadata lists -/\n")
+	b.WriteString("inductive AddrForm where\n  | joinHostPort | concat | other\n  deriving DecidableEq, Repr, Inhabited\n")
+	fmt.Fprintf(&b, "def brokerDialAddress : AddrForm := .%s\n\n", form)
 	if err := emitPrepare(repo, &b); err != nil {
 		return err
 	}
@@ -1058,6 +1065,62 @@ func extractRouting(repo, root string) error {
 	b.WriteString("end KV.Gen.Routing\n")
 	out := filepath.Join(root, "lean", "KafkaVerif", "Gen", "Routing.lean")
 	return os.WriteFile(out, []byte(b.String()), 0o644)
+}
+
+// brokerDialAddress classifies the `address:` expression of the networkAddress literal in newBrokerConnGroup.
+func brokerDialAddress(repo string) (string, error) {
+	f, err := parser.ParseFile(token.NewFileSet(), filepath.Join(repo, "transport.go"), nil, 0)
+	if err != nil {
+		return "", err
+	}
+	for _, d := range f.Decls {
+		fd, ok := d.(*ast.FuncDecl)
+		if !ok || fd.Body == nil || fd.Name.Name != "newBrokerConnGroup" {
+			continue
+		}
+		if len(fd.Type.Params.List) != 1 || len(fd.Type.Params.List[0].Names) != 1 {
+			return "", fmt.Errorf("newBrokerConnGroup: unexpected parameters")
+		}
+		bv := fd.Type.Params.List[0].Names[0].Name
+		locals := map[string]ast.Expr{}
+		form := ""
+		ast.Inspect(fd.Body, func(n ast.Node) bool {
+			switch x := n.(type) {
+			case *ast.AssignStmt:
+				if len(x.Lhs) == 1 && len(x.Rhs) == 1 {
+					if id, ok := x.Lhs[0].(*ast.Ident); ok {
+						locals[id.Name] = x.Rhs[0]
+					}
+				}
+			case *ast.KeyValueExpr:
+				k, ok := x.Key.(*ast.Ident)
+				if !ok || k.Name != "address" {
+					return true
+				}
+				v := x.Value
+				if id, ok := v.(*ast.Ident); ok && locals[id.Name] != nil {
+					v = locals[id.Name]
+				}
+				raw := rawExpr(v)
+				switch {
+				case raw == "net.JoinHostPort("+bv+".Host,strconv.Itoa("+bv+".Port))",
+					raw == "net.JoinHostPort("+bv+".Host,strconv.Itoa(int("+bv+".Port)))",
+					raw == "net.JoinHostPort("+bv+".Host,strconv.FormatInt(int64("+bv+".Port),10))":
+					form = "joinHostPort"
+				case strings.HasPrefix(raw, bv+".Host+\":\"+"), strings.HasPrefix(raw, "fmt.Sprintf(\"%s:%d\","), strings.HasPrefix(raw, "fmt.Sprintf(\"%v:%v\","):
+					form = "concat"
+				default:
+					form = "other"
+				}
+			}
+			return true
+		})
+		if form == "" {
+			return "", fmt.Errorf("newBrokerConnGroup: no `address:` field found")
+		}
+		return form, nil
+	}
+	return "", fmt.Errorf("transport.go: newBrokerConnGroup not found")
 }
 
 // litValue evaluates an integer literal expression (possibly parenthesised / typed conversion).
